@@ -41,6 +41,14 @@ CHECKS = {
          "Exploration with an exhaustive sub-domain: every chain with up to 2 slots of each kind over order values {0,1,7} and every Pass/Blocked/Wait assignment is enumerated; larger chains (up to 4 per kind, ties, arbitrary insertion interleavings) are generated. The call log of recording slots decides ordering, blocked-iff, provenance of the error and the exactly-once notifications.",
          "Trusted: mock check slots only return their result; an early stop right after a blocking slot is accepted.",
          "5/C13"),
+ "C09": ("proptest inbound traffic histories; thresholds placed below/at/above the value the harness's own model predicts; injected load/CPU",
+         "Exploration: system rules of all five metric types x both strategies are loaded with thresholds derived from the value the harness's independent model of the inbound node says the next probe will observe (below / equal / above), so every comparison operator and the BBR clause are exercised at the boundary; the block type, the named rule and the carried value are checked through a recording StatSlot; outbound probes must never be blocked.",
+         "Trusted: virtual clock; sentinel_verif setters for load/CPU; the shared inbound node is isolated by >= 20 s of virtual time between cases.",
+         "5/C09"),
+ "C10": ("proptest operation sequences per rule family vs reference rule map; reported, enforced-object and decision comparisons after every operation",
+         "Exploration: generated sequences of load-all / load-for-resource / append / clear / get over pools of valid, invalid and equal-but-differently-identified rules for all five managers; after every operation the reported rules, the rules bound to the enforcing controllers/breakers and (flow, isolation) real admission decisions are compared with a reference map; return values asserted only where the statement fixes them.",
+         "Trusted: rules given to load_rules_of_resource name that resource; sets compared under rule equality; panics end the shard (dirty).",
+         "5/C10"),
 }
 ALL = ["C%02d" % i for i in range(1, 21)]
 NOT_YET = "check not built yet in this round (planned, see DESIGN.md section 5)"
